@@ -674,6 +674,11 @@ class World:
                     del parent.children[name]
             elif node is None or bytes(node.data) != cur:
                 self.fs.h_mkdirs(posixpath.dirname(p))
+                if node is not None:
+                    # a new version REPLACES the object atomically (new inode): a copy that is in flight keeps
+                    # reading the old one, like a reader of a file that was renamed over
+                    parent, name = self.fs._lookup(p, want_parent=True)
+                    del parent.children[name]
                 self.fs.h_write(p, cur)
 
     def snapshot_dir(self):
